@@ -104,6 +104,9 @@ def setup_worker(job: Dict[str, Any]) -> None:
         f.write(b'hello static world, long enough to be compressed by default settings\n' * 3)
     with open(os.path.join(d, 'tiny.txt'), 'wb') as f:
         f.write(b'tiny')
+    import random
+    with open(os.path.join(d, 'noise.bin'), 'wb') as f:
+        f.write(random.Random(6).randbytes(3000))       # does not shrink under gzip
 
 
 def _routes(log: List[Any]) -> List[type]:
@@ -114,7 +117,8 @@ def _routes(log: List[Any]) -> List[type]:
         def routes(self) -> List[Tuple[int, str]]:
             return [(httpProtocolTypes.HTTP, r'/ok-small$'), (httpProtocolTypes.HTTP, r'/ok-big$'),
                     (httpProtocolTypes.HTTP, r'/ok-empty$'), (httpProtocolTypes.HTTP, r'/ok-plain$'),
-                    (httpProtocolTypes.HTTP, r'/redirect$'), (httpProtocolTypes.HTTP, r'/seeother$')]
+                    (httpProtocolTypes.HTTP, r'/redirect$'), (httpProtocolTypes.HTTP, r'/seeother$'),
+                    (httpProtocolTypes.HTTP, r'/ok-plain-big$'), (httpProtocolTypes.HTTP, r'/ok-noise$')]
 
         def handle_request(self, request: Any) -> None:
             p = (request.path or b'/').split(b'?')[0]
@@ -127,6 +131,11 @@ def _routes(log: List[Any]) -> List[type]:
                 self.client.queue(okResponse())
             elif p == b'/ok-plain':
                 self.client.queue(okResponse(content=b'plain ' * 100, compress=False))
+            elif p == b'/ok-plain-big':
+                self.client.queue(okResponse(content=b'0123456789' * 500, compress=False, headers={b'X-R': b'big'}))
+            elif p == b'/ok-noise':
+                import random
+                self.client.queue(okResponse(content=random.Random(66).randbytes(4000)))
             elif p == b'/redirect':
                 self.client.queue(permanentRedirectResponse(b'http://elsewhere.example/x'))
             else:
@@ -155,10 +164,14 @@ def run_one(tape: Any, cfg: Dict[str, Any], forbid: FrozenSet[str] = frozenset()
             path = None
             if form == 'origin':
                 path = [b'/ok-small', b'/ok-big', b'/ok-empty', b'/ok-plain', b'/redirect', b'/seeother',
-                        b'/hello.txt', b'/tiny.txt', b'/nosuch', b'/'][tape.draw(10, 'wpath')]
+                        b'/hello.txt', b'/tiny.txt', b'/nosuch', b'/', b'/ok-plain-big', b'/ok-noise',
+                        b'/noise.bin'][tape.draw(13, 'wpath')]
+            from ..httpgen import METHODS
             raw, _ = gen_request(tape, g, form=form, host=b'up.example',
                                  port=[None, 80, 8080][tape.draw(3, 'port')] if form != 'connect' else 443,
-                                 max_body=120, path=path)
+                                 max_body=120, path=path,
+                                 # the generated routes answer every method with a body; HEAD to them says nothing about the proxy
+                                 methods=[m for m in METHODS if m != b'HEAD'] if form == 'origin' else None)
             return raw
         if kind == 'random_bytes':
             data = scen.body_bytes(tape, 1 + tape.draw(300, 'rlen'), 'rnd')
@@ -254,6 +267,10 @@ def run_one(tape: Any, cfg: Dict[str, Any], forbid: FrozenSet[str] = frozenset()
             if p['error']:
                 w.fail('malformed_response', 'h11', 'h11 rejects the proxy output: %s; input=%r output=%r'
                        % (p['error'], data[:100], rx[:200]))
+            elif rx and not p['responses']:
+                # bytes were emitted but they never amounted to a response head
+                w.fail('partial_response' if closed else 'stalled_response', 'header_block',
+                       'the proxy sent %d bytes that do not form a complete response head: %r' % (len(rx), rx[-120:]))
             elif finals and not finals[-1]['complete']:
                 if closed:
                     w.fail('partial_response', 'closed', 'connection closed inside a response: %r' % rx[-120:])
